@@ -144,8 +144,19 @@ func c14load(cs c14case) (res string) {
 			res = "PANIC " + strings.ReplaceAll(short(fmt.Sprint(r)), "\n", " ")
 		}
 	}()
-	m, err := parser.LoadModule(cs.opener(), cs.Main)
+	var m *meta.Module
+	var err error
+	if cs.Fault["*"] == "no-opener" {
+		// the text alone, as most callers that have one module do
+		m, err = parser.LoadModuleFromString(nil, cs.Files[cs.Main])
+	} else {
+		m, err = parser.LoadModule(cs.opener(), cs.Main)
+	}
 	if err != nil {
+		if m != nil {
+			// "a module or an error": what comes with an error is not compiled
+			return "module-and-error"
+		}
 		if strings.TrimSpace(err.Error()) == "" {
 			return "error-without-text"
 		}
@@ -366,7 +377,7 @@ var c14cycles = []struct{ desc, body string }{
 }
 
 func C14(c *core.Ctx) {
-	c.Rule = "load attempts in child processes (a fatal stack overflow or a hang is observed, not suffered): (a) every module of parser/testdata and generated modules (C01/C02/C06 generators) unchanged, (b) every one of them truncated at sampled token boundaries, (c) with one token deleted, duplicated or replaced from a pool of 90 keywords/punctuation/odd arguments, (d) 40 hand-written reference-cycle and dangling-reference modules (typedef, grouping, identity, leafref, augment, deviation, key, unique, if-feature …), (e) import/include graphs: chains, diamonds, self-import, cycles of length 2–4, include cycles, a module where a submodule is expected and the reverse, belongs-to of another module, (f) opener faults on the main file, an import or an include: missing, open error, read error, (g) pathological sizes: nesting depth up to 5000, 20000 siblings, 200 kB arguments, 2000-piece concatenations; every load must end within 20 s with a module or a non-empty error; a returned module is walked through every public accessor. Import graphs are also given to the Lean model of the resolver's import handling, outcome (ok / cycle error / missing) compared. non-trivial = mutated or faulty input; distinct by input; typedef reference graphs (cycles directly and through union members, diamonds, missing types, random) decided by the same Lean model as the import graphs"
+	c.Rule = "load attempts in child processes (a fatal stack overflow or a hang is observed, not suffered): (a) every module of parser/testdata and generated modules (C01/C02/C06 generators) unchanged, (b) every one of them truncated at sampled token boundaries, (c) with one token deleted, duplicated or replaced from a pool of 90 keywords/punctuation/odd arguments, (d) 40 hand-written reference-cycle and dangling-reference modules (typedef, grouping, identity, leafref, augment, deviation, key, unique, if-feature …), (e) import/include graphs: chains, diamonds, self-import, cycles of length 2–4, include cycles, a module where a submodule is expected and the reverse, belongs-to of another module, (f) opener faults on the main file, an import or an include: missing, open error, read error, (g) pathological sizes: nesting depth up to 5000, 20000 siblings, 200 kB arguments, 2000-piece concatenations; every load must end within 20 s with a module or a non-empty error; a returned module is walked through every public accessor. Import graphs are also given to the Lean model of the resolver's import handling, outcome (ok / cycle error / missing) compared. non-trivial = mutated or faulty input; distinct by input; typedef reference graphs (cycles directly and through union members, diamonds, missing types, random) decided by the same Lean model as the import graphs; six module texts loaded without an opener (import, include, unknown type, unknown grouping); a load that answers with an error answers with no module"
 	c.Assumptions = append(c.Assumptions,
 		"'promptly' is taken as 20 s per load on this machine (pathological sizes included)",
 		"the Lean theorems cover the termination and the cycle verdict of import resolution; for the rest of the loader this check is a search for crashing inputs, not a proof (labelled partial)")
@@ -462,6 +473,10 @@ func C14(c *core.Ctx) {
 	// (d) cycles and dangling references
 	for _, cy := range c14cycles {
 		add(c14case{Desc: cy.desc, Files: map[string]string{"x": hdr("x") + "extension ext { argument a; } feature f; feature g;\n" + cy.body + "\n}"}, Main: "x"})
+	}
+	// (d1) loaded from the text alone, without anything to open other files with
+	for _, body := range []string{"import y { prefix y; }", "include x-sub;", "leaf a { type string; }", "import y { prefix y; } leaf a { type y:t; }", "leaf a { type nosuch; }", "uses nosuch;"} {
+		add(c14case{Desc: "no-opener: " + body, Files: map[string]string{"x": hdr("x") + body + "\n}"}, Fault: map[string]string{"*": "no-opener"}, Main: "x"})
 	}
 	// (d2) if-feature where no module of the load has declared a feature yet
 	add(c14case{Desc: "if-feature without any feature statement", Files: map[string]string{"x": "module x { namespace \"urn:x\"; prefix x; revision 2020-01-01;\n leaf a { if-feature nosuch; type string; } container c { if-feature \"not nosuch\"; }\n}"}, Main: "x"})
